@@ -2,5 +2,6 @@
 import SonicSpec.Model.Hex
 import SonicSpec.Model.Str
 import SonicSpec.Model.JsonTree
+import SonicSpec.Model.GoTypes
 import SonicSpec.Driver.Dispatch
 import SonicSpec.Props.C20
